@@ -5,7 +5,7 @@ from . import dm
 from .absmodel import PAGE, PAYLOAD, AbsReader, AbsWriter, logical, phys
 from .models import Dev, ErrV, IoError, OkV, U64
 from .replay import CBuf, HELPERS, mbytes, mval, native_panicked, parse_kv, run_rust_test, rust_bytes
-from .spec_page import (FRESH_OVERRIDE, READER_DRIVER, WRITER_DRIVER, fresh, init_interp, parse_result, crc32c)
+from .spec_page import (skolems, FRESH_OVERRIDE, READER_DRIVER, WRITER_DRIVER, fresh, init_interp, parse_result, crc32c)
 from .spec_page import logical as page_logical
 from .values import Agg, Buf, Loc, Ref, sym_buf
 
@@ -54,7 +54,7 @@ class AbsWriterReplay:
         stream = mbytes(model, s.L0, npages * PAYLOAD)
         pending = mbytes(model, lambda k: s.L0(U64(P * PAYLOAD) + k), off)
         pre = dict(npages=npages, P=P, offset=off, cursor=cursor, stream=stream, pending=pending,
-                   sk={n: mval(model, z3.BitVec(n, 64)) for n in ("sk_i", "sk_q", "sk_j")})
+                   sk=skolems(model))
         if self.extra:
             pre.update(self.extra(model, s))
         return pre
@@ -151,7 +151,7 @@ class AbsReaderReplay:
             dev += payload + crc.to_bytes(4, "big")
             valid.append(ok)
         pre = dict(npages=npages, offset=mval(model, s.cursor), cached=-1, dev=bytes(dev), valid=valid,
-                   sk={n: mval(model, z3.BitVec(n, 64)) for n in ("sk_i", "sk_q", "sk_j")})
+                   sk=skolems(model))
         pre.update(self.extra(model, s))
         return pre
 
